@@ -272,6 +272,10 @@ func orderList(seed int64, shard, n int) []EvalCase {
 			}
 		}
 	}
+	// rejected texts of many kinds (what a diagnostic says does not depend on which texts were rejected before)
+	for _, bad := range rejectedTexts {
+		out = append(out, EvalCase{Src: bad, Data: datas[0]})
+	}
 	n += len(out)
 	for len(out) < n {
 		src := ref.Print(NoSelfStore(cfg.Node(r, 1+r.Intn(4))))
@@ -291,6 +295,10 @@ func orderList(seed int64, shard, n int) []EvalCase {
 	}
 	return out
 }
+
+var rejectedTexts = []string{"1 2", "(1", "[1", "f(1", "a ?", "a ? 1", "a.", "1 +", "'x", "f(1,", "[1,", "a b", ")", "]", "a ? b c", "$a = ", "f(..)", "1..2", "a!.", "typeof", "1e", "1_", "0x", "#", "a ? : b",
+	"(a", "((a)", "[a", "[[a]", "f(a", "f(g(a)", "a.b.", "a ? b : ", "-", "!", "a ,", ", a", "a ? b :: c", "f(a b)", "[a b]", "(a b)", "a\n.b", "f\n(1)", "'a\nb'", "\"x", "1 2 3", "f(1 2)", "[1 2]", "a ? 1 2 : 3", "{", "a..b",
+	"f(...)", "f(a...b)", "[...a]", "a = ", "1 = ", "a ? b", "a ?? ", "a && ", "a || ", "~", "a.1", "a.'b'", "1.a", "1e+", ".e1", "1__0", "1_.0", "'\\", "'\\x4'", "'\\u12'", "@", "a @ b", "`a`", "a; b", "a :", ": a", "?", "a ? ? b : c"}
 
 func orderOutcomes(list []EvalCase, order []int, beat func()) []string {
 	out := make([]string, len(list))
